@@ -22,7 +22,11 @@ type PathQuery struct {
 	StartPred *ssa.BasicBlock
 	Cut       func(ssa.Instruction) bool
 	Goal      func(ssa.Instruction) bool
-	Prune     func(from, to *ssa.BasicBlock) bool
+	// GoalP is like Goal but also sees the path walked to the instruction
+	// (to resolve what a merged return returns on this path). In the
+	// path-insensitive phases the view is empty and answers "unknown".
+	GoalP func(ssa.Instruction, PathView) bool
+	Prune func(from, to *ssa.BasicBlock) bool
 	// Assume gives known truth values of boolean SSA values. Branches whose
 	// condition evaluates (through negation, constants, and phis resolved
 	// along the path walked) to a known value are only followed on the
@@ -31,6 +35,53 @@ type PathQuery struct {
 	// NonNil lists values assumed non-nil: comparisons of them (or of phis
 	// that resolve to them along the path) with nil are evaluated.
 	NonNil map[ssa.Value]bool
+}
+
+// PathView lets a goal predicate look at values as they are on the path
+// walked so far.
+type PathView struct {
+	q *PathQuery
+	n *pnode
+}
+
+// Resolve follows phis along the path to the operand selected.
+func (pv PathView) Resolve(v ssa.Value) ssa.Value {
+	if pv.q == nil {
+		return v
+	}
+	if r := pv.q.resolvePhi(v, pv.n, 0); r != nil {
+		return r
+	}
+	return v
+}
+
+// NilKnown reports whether v is known to be nil / non-nil on this path: by
+// the operand a phi selects, by construction (a fresh or wrapped error), or by
+// a nil test passed on the way.
+func (pv PathView) NilKnown(v ssa.Value) (isNil, known bool) {
+	if pv.q == nil {
+		return false, false
+	}
+	rv, pos := pv.q.resolvePhiAt(v, pv.n, 0)
+	if rv == nil {
+		return false, false
+	}
+	if IsNilConst(rv) {
+		return true, true
+	}
+	if pv.q.nonNilValue(rv, 0) {
+		return false, true
+	}
+	if isNil, known := pathNilFact(rv, pos); known {
+		return isNil, true
+	}
+	// Wrap(err): nil exactly when err is
+	if c, ok := rv.(*ssa.Call); ok && len(c.Call.Args) > 0 {
+		if n := Callee(c); strings.Contains(n, "errors.Wrap") || strings.Contains(n, "errors.WithMessage") || strings.Contains(n, "errors.WithStack") {
+			return PathView{q: pv.q, n: pos}.NilKnown(c.Call.Args[0])
+		}
+	}
+	return false, false
 }
 
 type pnode struct {
@@ -263,7 +314,81 @@ func staticLen(v ssa.Value) (int64, bool) {
 	if ms, ok := v.(*ssa.MakeSlice); ok {
 		return func() (int64, bool) { c, ok := ConstInt(ms.Len); return c, ok }()
 	}
+	// a package-level slice that is assigned once, in the package initialiser, from
+	// a literal: its length is the literal's
+	if ld, ok := v.(*ssa.UnOp); ok {
+		if g, ok := ld.X.(*ssa.Global); ok {
+			return globalSliceLen(g)
+		}
+	}
 	return 0, false
+}
+
+var globalLenCache = map[*ssa.Global][2]int64{}
+
+func globalSliceLen(g *ssa.Global) (int64, bool) {
+	if c, ok := globalLenCache[g]; ok {
+		return c[0], c[1] == 1
+	}
+	n, ok := int64(0), false
+	stores := 0
+	for _, m := range g.Pkg.Members {
+		fn, isF := m.(*ssa.Function)
+		if !isF {
+			continue
+		}
+		var visit func(f *ssa.Function)
+		visit = func(f *ssa.Function) {
+			for _, b := range f.Blocks {
+				for _, in := range b.Instrs {
+					if st, isSt := in.(*ssa.Store); isSt && st.Addr == ssa.Value(g) {
+						stores++
+						if f.Name() == "init" {
+							if l, okL := staticLen(st.Val); okL {
+								n, ok = l, true
+							}
+						}
+					}
+				}
+			}
+			for _, a := range f.AnonFuncs {
+				visit(a)
+			}
+		}
+		visit(fn)
+	}
+	// methods of the package's types
+	for _, m := range g.Pkg.Members {
+		if t, isT := m.(*ssa.Type); isT {
+			for _, ptr := range []bool{false, true} {
+				typ := t.Type()
+				if ptr {
+					typ = types.NewPointer(typ)
+				}
+				ms := g.Pkg.Prog.MethodSets.MethodSet(typ)
+				for i := 0; i < ms.Len(); i++ {
+					if f := g.Pkg.Prog.MethodValue(ms.At(i)); f != nil && f.Pkg == g.Pkg {
+						for _, b := range f.Blocks {
+							for _, in := range b.Instrs {
+								if st, isSt := in.(*ssa.Store); isSt && st.Addr == ssa.Value(g) {
+									stores++
+								}
+							}
+						}
+					}
+				}
+			}
+		}
+	}
+	if stores != 1 {
+		ok = false
+	}
+	c := [2]int64{n, 0}
+	if ok {
+		c[1] = 1
+	}
+	globalLenCache[g] = c
+	return n, ok
 }
 
 // evalCond evaluates a branch condition along the path: booleans under the
@@ -330,7 +455,8 @@ func (q PathQuery) Find() []ssa.Instruction {
 		return nil
 	}
 	// scan returns (goalInstr, cut)
-	scan := func(b *ssa.BasicBlock, from int) (ssa.Instruction, bool) {
+	scan := func(n *pnode, from int, precise bool) (ssa.Instruction, bool) {
+		b := n.b
 		for k := from; k < len(b.Instrs); k++ {
 			in := b.Instrs[k]
 			if q.Cut != nil && q.Cut(in) {
@@ -338,6 +464,15 @@ func (q PathQuery) Find() []ssa.Instruction {
 			}
 			if q.Goal != nil && q.Goal(in) {
 				return in, false
+			}
+			if q.GoalP != nil {
+				pv := PathView{}
+				if precise {
+					pv = PathView{q: &q, n: n}
+				}
+				if q.GoalP(in, pv) {
+					return in, false
+				}
 			}
 		}
 		return nil, false
@@ -359,7 +494,7 @@ func (q PathQuery) Find() []ssa.Instruction {
 	if q.From == nil && q.StartPred != nil {
 		start.prev = &pnode{b: q.StartPred}
 	}
-	if g, cut := scan(startB, startI); g != nil {
+	if g, cut := scan(start, startI, true); g != nil {
 		return build(start, g)
 	} else if cut {
 		return nil
@@ -402,7 +537,7 @@ func (q PathQuery) Find() []ssa.Instruction {
 				continue
 			}
 			nn := &pnode{b: s, prev: n}
-			g, cut := scan(s, 0)
+			g, cut := scan(nn, 0, true)
 			if g != nil {
 				found = build(nn, g)
 				return true
@@ -455,7 +590,7 @@ func (q PathQuery) cycleEvaluable(n *pnode, s *ssa.BasicBlock) bool {
 }
 
 // bfs is the path-insensitive search (only Prune is honoured).
-func (q PathQuery) bfs(start *pnode, scan func(*ssa.BasicBlock, int) (ssa.Instruction, bool), build func(*pnode, ssa.Instruction) []ssa.Instruction) []ssa.Instruction {
+func (q PathQuery) bfs(start *pnode, scan func(*pnode, int, bool) (ssa.Instruction, bool), build func(*pnode, ssa.Instruction) []ssa.Instruction) []ssa.Instruction {
 	type key struct{ b, pred *ssa.BasicBlock }
 	seen := map[key]bool{}
 	queue := []*pnode{start}
@@ -472,7 +607,7 @@ func (q PathQuery) bfs(start *pnode, scan func(*ssa.BasicBlock, int) (ssa.Instru
 			}
 			seen[k] = true
 			nn := &pnode{b: s, prev: n}
-			g, cut := scan(s, 0)
+			g, cut := scan(nn, 0, false)
 			if g != nil {
 				return build(nn, g)
 			}
